@@ -1,6 +1,7 @@
 (* Model/C07Run.v - case type and checker evaluated on harness-generated cases (C07).
    Every observation was made on the REAL client (child process of harness/c07). *)
-From ReqV Require Export Lib.Bytes Model.Decode Model.BodyStages Model.H1Resp Model.H1Limits.
+From ReqV Require Export Lib.Bytes Model.Decode Model.BodyStages Model.H1Resp Model.H1Limits Model.AltSvc.
+From ReqV Require Model.Digest.
 
 (* run-length piece for big hostile streams: [repN n b] = n copies of byte b *)
 Definition repN (n b : N) : bytes := repeat (byte_of_N_total b) (N.to_nat n).
@@ -15,7 +16,22 @@ Inductive c07_case :=
             (o : ct_oracle) (obs_tags : list ltag) (obs_nil : bool)
 (* a hostile byte stream served to the real client over TCP; [limit] = MaxResponseHeaderBytes,
    [slack] = read buffer size (bytes possibly buffered before a budget reset) *)
-| H1Case (meth : bytes) (bufsize limit slack : N) (stream : bytes) (cmp_body : bool) (obs : h1obs).
+| H1Case (meth : bytes) (bufsize limit slack : N) (stream : bytes) (cmp_body : bool) (obs : h1obs)
+(* altsvcutil.ParseHeader on a header text: entries (protocol, host, port, "ma accepted") and error *)
+| AltSvcCase (input : bytes) (obs : list (bytes * bytes * bytes * bool)) (obs_err : perr)
+(* parseChallenge on a WWW-Authenticate text: accepted or not *)
+| ChallengeCase (input : bytes) (obs_ok : bool).
+
+Definition perr_eqb (a b : perr) : bool :=
+  match a, b with
+  | PNil, PNil | PEOF, PEOF | PErr AQuote, PErr AQuote | PErr AExpectMa, PErr AExpectMa
+  | PErr AParseInt, PErr AParseInt => true
+  | _, _ => false            (* PFuel never matches *)
+  end.
+
+Definition entry_eqb (e : entry) (o : bytes * bytes * bytes * bool) : bool :=
+  let '(p, h, pt, ma) := o in
+  bytes_eqb (e_proto e) p && bytes_eqb (e_host e) h && bytes_eqb (e_port e) pt && Bool.eqb (e_ma e) ma.
 
 Definition ltag_eqb (a b : ltag) : bool :=
   match a, b with
@@ -54,4 +70,9 @@ Definition c07_check (c : c07_case) : bool :=
       let len := N.of_nat (length s) in
       xmatch (run_exchange m (N.to_nat bsz) (N.to_nat (N.min lim len)) s) cmp o ||
       xmatch (run_exchange m (N.to_nat bsz) (N.to_nat (N.min (lim + slack) len)) s) cmp o
+  | AltSvcCase v es e =>
+      let '(es', e') := parse_header v in
+      list_eqb entry_eqb es' es && perr_eqb e' e
+  | ChallengeCase v ok =>
+      Bool.eqb (match Digest.parse_challenge v with inl _ => true | inr _ => false end) ok
   end.
